@@ -74,6 +74,12 @@ Definition reqrep_ok (c : string * N * N * list (list (N * N)) * list (N * N)) :
   let '(_, k, _, rs, _) := c in
   negb (match rs with [] => true | _ => false end) &&
   forallb (fun l => (N.of_nat (length l) =? k) && forallb (fun x => fst x =? snd x) l) rs.
+(* many thousands of simultaneous sends on an idle socket: every round completed (the harness stops at the first round in which
+   a message is missing, duplicated or foreign and hands over what arrived in it) *)
+Definition fast_ok (c : string * N * N * N * list (N * N)) : bool :=
+  let '(_, k, asked, done, bad) := c in (0 <? asked) && (done =? asked) && match bad with [] => true | _ => false end.
+Definition bad_fast := Eval vm_compute in bad_idx fast_ok fast_cases.
+Print bad_fast.
 Definition bad_oneway := Eval vm_compute in bad_idx oneway_ok oneway_cases.
 Definition bad_reqrep := Eval vm_compute in bad_idx reqrep_ok reqrep_cases.
 Definition nrounds := Eval vm_compute in map (fun c => N.of_nat (length (snd (fst c)))) (oneway_cases ++ reqrep_cases).
@@ -81,17 +87,20 @@ Print bad_oneway. Print bad_reqrep. Print nrounds.
 """
 
 
-def run_concurrent(res):
+def run_concurrent(res, pid="C11", env=None):
     """Concurrent callers on one socket (harness/cmd/c11conc): every interleaving must behave like some order of the calls."""
     from .c20 import items
-    out, defs, (rc, so, se) = core.gen_and_eval("C11_conc", "c11conc", CONC_HEADER, CONC_FOOTER, timeout=900)
+    out, defs, (rc, so, se) = core.gen_and_eval(pid + "_conc", "c11conc", CONC_HEADER, CONC_FOOTER, timeout=900, env=env)
     if out is None:
         res.violation("conc:harness-abort", "the concurrent-callers harness did not complete on the current tree (rc=%d): %s" % (rc, (se[se.find("WATCHDOG"):][:300] if "WATCHDOG" in se else se[-600:])),
                       {"stderr": se[-4000:]}, found_input=("panic:" in se or "WATCHDOG" in se))
         return {}
     text = open(defs).read()
     n = 0
-    for cname, bname, what in (("oneway_cases", "bad_oneway", "K goroutines sending at the same instant on one socket (then K x M in bulk): at the connected, receiving peer a message was lost, "
+    for cname, bname, what in (("fast_cases", "bad_fast", "K goroutines sending at the same instant on an idle socket, round after round: in one round a message accepted by Send did not "
+                                "arrive at the connected, receiving peer within 2 s (lost wake-up / stalled sender), or arrived twice, or was not of that round: "
+                                "(pattern, K, rounds asked, rounds completed, arrivals of the failing round as (sender, round))"),
+                               ("oneway_cases", "bad_oneway", "K goroutines sending at the same instant on one socket (then K x M in bulk): at the connected, receiving peer a message was lost, "
                                 "duplicated, out of its sender's order, or the senders stalled (round list stops at the first incomplete round)"),
                                ("reqrep_cases", "bad_reqrep", "K contexts making a request at the same instant: a goroutine did not get the echo of its own request (999999 = error / timeout)")):
         its = items(text, cname)
@@ -102,6 +111,43 @@ def run_concurrent(res):
             res.violation("conc:%s:%s" % (cname, name.group(1) if name else "?"), what,
                           {"group": cname, "index": i, "case": case[-3000:], "format": "(pattern/transport, K, M, per-round delivered [(sender, round)], bulk delivered [(sender, seq)])"})
     return {"concurrent_scenarios": n, "rounds_per_scenario": core.parse_printed(out, "nrounds")}
+
+
+def run_static_subset(res, pid, must_contain, obligation, why):
+    """The lock discipline (guarded_ok) on the skeleton regenerated from /repo, restricted to the fields whose name contains one of
+    `must_contain` (e.g. the sends to a channel that is closed elsewhere: "<field>+send").  Used by properties other than C11."""
+    gd, rp = gen_raceprog(pid)
+    sub = " || ".join('has_sub "%s" (snd x)' % m for m in must_contain)
+    stmt = ("guarded_ok (N.of_nat (length class_names)) (N.of_nat (length field_names)) rprogram "
+            "(map (fun x => N.of_nat (fst x)) (filter (fun x => negb (%s) || negb (in_scope (snd x)) || existsb (String.eqb (snd x)) exempt_fields) "
+            "(combine (seq 0 (length field_names)) field_names))) = true /\\ "
+            "existsb (fun x => %s) (combine (seq 0 (length field_names)) field_names) = true" % (sub, sub))
+    obl = core.check_gen_obligations(pid + "_static", gd, IMPORTS + "Open Scope string_scope.\n", [(obligation, stmt, "split; vm_compute; reflexivity.")], timeout=900)
+    failed = [(n, e) for n, ok, e in obl if not ok]
+    res.coverage["discharged"] += len(obl) - len(failed)
+    res.coverage["theorems"] += [n for n, _, _ in obl]
+    res.coverage.setdefault("generated_obligations", {}).update({n: ok for n, ok, _ in obl})
+    if not failed:
+        return 0
+    p = os.path.join(core.WORK, pid, "report_static.v")
+    open(p, "w").write(REPORT)
+    rc, out, err, dt = core.coqc_file(p, extra=["-Q", gd, "MVgen"], timeout=900)
+    txt = re.sub(r"\s+", " ", out)
+    found = 0
+    for m in re.finditer(r'\("([^"]+)", "([^"]+)", \[(.*?)\]\)', txt):
+        fld, guard, accs = m.group(1), m.group(2), re.findall(r'\("([^"]+)", (true|false)\)', m.group(3))
+        if not any(k in fld for k in must_contain):
+            continue
+        sites = sorted(set(a for a, w in accs))
+        found += 1
+        res.violation("static:field:%s" % fld, "%s: %s -- these do not hold the mutex the others hold (%s): %s" % (fld, why, guard, "; ".join(sites)[:500]),
+                      {"field": fld, "guard_held_by_the_other_accesses": guard, "unguarded_accesses": sites, "theorem": obligation,
+                       "how": "bin/check %s regenerates the skeleton with harness/cmd/go2race and re-evaluates guarded_ok on these fields" % pid}, found_input=False)
+    if not found:
+        for n, e in failed:
+            res.violation("obligation:" + n, "generated obligation %s no longer checks against the skeleton regenerated from /repo" % n,
+                          {"theorem": n, "coqc": e, "translator": "harness/cmd/go2race"}, found_input=False)
+    return found
 
 
 def run(res):
